@@ -75,9 +75,14 @@ func (r *qLogReader) seekTS(ctx context.Context, timestamp int64) (err error) {
 
 				continue
 			} else if errors.Is(err, errTSTooLate) {
-				// Just seek to the start then.  timestamp is probably between
-				// the end of the previous one and the start of this one.
-				return r.SeekStart()
+				// Just seek to the start of this file then.  timestamp is
+				// probably between the end of this one and the start of the
+				// newer one, so the records to read next are the ones of this
+				// file, not the ones of the newest file.
+				r.currentFile = i
+				_, err = q.SeekStart()
+
+				return err
 			} else if errors.Is(err, errTSNotFound) {
 				return err
 			} else {
